@@ -64,6 +64,7 @@ type Case struct {
 	TransK    int        `json:"transport_k"`
 	Interrupt bool       `json:"interrupted_earlier_stage"`
 	Double    string     `json:"double_call"` // "", stage, transition, stage-before-scan
+	NewDirs   int        `json:"new_dirs"`    // directories / links the plan creates (no staging needed)
 }
 
 func contentFor(id int) []byte { return disk.Content(byte(50+id), 300+id*37) }
@@ -210,6 +211,16 @@ func judge(c *Case, dir string) (v verdict) {
 		}
 		if old != nil && !nested && !tree.HasUnsync(old) && d != "" {
 			plan = append(plan, &core.Change{Path: d, Old: old})
+		}
+	}
+	for i := 0; i < c.NewDirs; i++ {
+		p := fmt.Sprintf("zz-extra%d", i)
+		if tree.At(snap.Content, p) == nil {
+			nw := tree.D(nil)
+			if i%2 == 1 {
+				nw = tree.L("a")
+			}
+			plan = append(plan, &core.Change{Path: p, New: nw})
 		}
 	}
 	if len(plan) == 0 {
@@ -561,6 +572,9 @@ func drawCase(rt *rapid.T) *Case {
 	c.Transport = rapid.SampledFrom([]string{"clean", "clean", "drop-op", "abort", "flip-byte"}).Draw(rt, "transport")
 	c.TransK = rapid.IntRange(0, 40).Draw(rt, "transport.k")
 	c.Interrupt = rapid.IntRange(0, 4).Draw(rt, "interrupt") == 0
+	if rapid.IntRange(0, 2).Draw(rt, "newdirs") == 0 {
+		c.NewDirs = rapid.IntRange(1, 5).Draw(rt, "newdirs.n")
+	}
 	c.Double = rapid.SampledFrom([]string{"", "", "", "stage", "transition", "stage-before-scan"}).Draw(rt, "double")
 	return c
 }
@@ -571,7 +585,7 @@ func sample(c *Case) map[string]any {
 		wants = append(wants, fmt.Sprintf("%s<=content%d(%s)", w.Path, w.Content, w.Source))
 	}
 	return map[string]any{"tree": c.Root.Render(false), "wants": wants, "deletes": c.Deletes, "copies_in_root": c.Copies, "copies_modified_after_scan": c.Touched,
-		"sha256": c.SHA256, "limit_delta": c.MaxEntry, "small_max_staging_size": c.MaxStage, "transport": c.Transport, "k": c.TransK, "interrupted_earlier_stage": c.Interrupt, "double_call": c.Double}
+		"sha256": c.SHA256, "limit_delta": c.MaxEntry, "small_max_staging_size": c.MaxStage, "transport": c.Transport, "k": c.TransK, "interrupted_earlier_stage": c.Interrupt, "double_call": c.Double, "new_dirs_or_links": c.NewDirs}
 }
 
 var rules = map[string]string{
